@@ -124,7 +124,7 @@ def cases(tier, seed):
             pats = symp + rest
         for P in pats:
             mats.append((n, pat_rows(r, n, P), True))
-    nrand = 120 if tier == "quick" else 900
+    nrand = 250 if tier == "quick" else 900
     for _ in range(nrand):
         n, rows = rand_matrix(r, tier)
         mats.append((n, rows, False))
@@ -142,7 +142,7 @@ def cases(tier, seed):
                 add("gs_sched", "%d %d 0 %s" % (r.choice([0, 1]), nt, A))
         # sweeps
         rhs = gen.rvec(r, n); x = gen.rvec(r, n)
-        reps = 3
+        reps = 4
         sw_nts = use_nts if not small else [4]
         for nt in sw_nts:
             for fwd in (1, 0):
@@ -187,7 +187,7 @@ def cases(tier, seed):
 
     # ---- kernels / products / transfer operators / reductions across thread counts ----
     NB = [F(1, 3), F(1, 10), F(-7, 3), F(2, 7), F(5, 9), F(1), F(-1), F(3, 2), F(-1, 10), F(22, 7), F(1, 1000), F(1000, 3)]
-    nk = 40 if tier == "quick" else 250
+    nk = 60 if tier == "quick" else 250
     for it in range(nk):
         n = r.choice([1, 2, 3, 5, 8, 13, 17, 24, 33, 40]); m = r.choice([n, n, max(1, n + r.randint(-2, 3))])
         def val(): return r.choice(NB) if r.random() < 0.6 else gen.rq(r, nz=True)
@@ -215,7 +215,7 @@ def cases(tier, seed):
         for nt in knts:
             out.append("k%d.t_inner@%d t.inner %d %s %s" % (base, nt, nt, fmt_vec(u), fmt_vec(v)))
     # coarsening transfer operators and Gershgorin bounds on square systems (with a full diagonal)
-    nc = 16 if tier == "quick" else 120
+    nc = 24 if tier == "quick" else 120
     for it in range(nc):
         n = r.choice([6, 9, 12, 16, 20, 25, 30, 36])
         if r.random() < 0.7:
@@ -233,6 +233,10 @@ def cases(tier, seed):
         addc("t.aggr", "%s %s" % (eps, A))
         addc("t.saggr", "%s %d %s" % (eps, r.choice([0, 1]), A))
         addc("t.rs", "%s %d %s" % (r.choice(["1/4", "1/2", "1/10"]), r.choice([0, 1]), A))
+        # rows whose off-diagonal entries are all positive (no strong connections; connect() takes its early exit)
+        rows3 = [[(c, abs(v)) for c, v in rw] if r.random() < 0.3 else rw for rw in rows]
+        base = cnt[0]; cnt[0] += 1
+        addc("t.rs", "%s %d %s" % (r.choice(["1/4", "1/2"]), r.choice([0, 1]), fmt_crs(n, n, rows3)))
         addc("t.gershgorin", "%d %s" % (r.choice([0, 1]), A))
         if it % 4 == 0:
             # degenerate input: some rows without a diagonal entry
@@ -282,7 +286,8 @@ def nontrivial(op, payload, impl_out):
     return bool(re.search(r"[1-9]", impl_out))
 
 def gs_reference_levels(n, rows, fwd):
-    """independent re-statement of the level loop (only used to classify a failing sweep)"""
+    """the level loop as it was BEFORE the fix /repo f214b60 (own already-swept neighbours only); only used to
+    classify a failure as the historical finding C09-gs-antidep (now status fixed: nothing is suppressed)"""
     level = [0] * n
     order = range(n) if fwd else range(n - 1, -1, -1)
     for i in order:
@@ -443,6 +448,11 @@ def run(ctx, cases_override=None):
         dbl = [l for l in kern if l.split(" ", 2)[1].startswith("d.")]
         kern.sort(key=lambda l: int(l.split(" ", 1)[0].rsplit("@", 1)[1]))
         outk = ctx["run_driver"](ctx["cpp"]["sched"], kern, env_extra=ENV, shards=8)
+        for _ in range(4):
+            # a crashing case takes the rest of its shard with it: re-run what got no answer
+            todo = [l for l in kern if l.split(" ", 1)[0] not in outk]
+            if not todo: break
+            outk.update(ctx["run_driver"](ctx["cpp"]["sched"], todo, env_extra=ENV, shards=8))
         account(ctx, kern, outk, nontrivial)
         groups = {}
         for l in kern:
@@ -453,12 +463,17 @@ def run(ctx, cases_override=None):
             op = g[0][2].split(" ", 2)[1]
             ref_nt, ref_id, ref_l = g[0]
             ref = outk.get(ref_id)
+            bad = False
             for nt, cid, l in g:
                 o = outk.get(cid)
-                if o is None or o.startswith(("CRASH", "EXC", "UNSUPPORTED")):
+                # an exception (e.g. empty_level: no coarse points) is a regular outcome and must simply
+                # be the same at every thread count
+                if o is None or o.startswith(("CRASH", "UNSUPPORTED")):
+                    bad = True
+                    ctx["stats"]["mismatches"] += 1
                     fails.append(dict(kind="counterexample", case=l, impl=o, model=None, op=op, size=len(l),
-                                      theorem="kernel runs at %d threads" % nt)); continue
-            if ref is None: continue
+                                      theorem="kernel runs at %d threads (no crash)" % nt))
+            if bad: continue
             if op.endswith("t.product"):
                 def parts(o):
                     i = o.index(" S "); return o[2:i], o[i + 3:]
@@ -481,6 +496,10 @@ def run(ctx, cases_override=None):
                         ctx["stats"]["mismatches"] += 1
                         fails.append(dict(kind="counterexample", case=l, impl=outk.get(cid), model=ref, op=op, size=len(l),
                                           theorem="%s identical at %d and %d threads (%s)" % (op, ref_nt, nt, "bit patterns" if op.startswith("d.") else "exact")))
+        for x in fails:
+            cid = (x.get("case") or "").split(" ", 1)[0]
+            if cid.startswith("k") and "@" in cid and not x.get("case_lines"):
+                x["case_lines"] = [l for _, _, l in groups.get(cid.rsplit("@", 1)[0], [])]
         # exact kernels with a model: the value itself
         modelled = [l for l in exact if l.split(" ", 2)[1] in ("t.spmv", "t.residual", "t.axpby", "t.axpbypcz", "t.vmul", "t.inner",
                                                                 "t.product", "t.sum", "t.transpose")]
